@@ -728,6 +728,8 @@ func genKafkaStages(r *Rand, tier string, emit func(sx.Sx)) {
 			}
 		}
 	}
+	// every (api, version) the dissector has a layout for, written along that layout
+	genKafkaLayoutStages(r, rounds/2, emit)
 }
 
 // Family kafka.split (C08): the streams of kafka.conv (clean and not) and of kafka.raw delivered
